@@ -2,9 +2,38 @@ package main
 
 import (
 	"crypto/sha1"
+	"encoding/base64"
 	"encoding/hex"
 	"encoding/json"
+	"unicode/utf8"
 )
+
+// Txt is an input text. Inputs may be torn in the middle of a multi-byte
+// character; JSON strings cannot carry invalid UTF-8 (encoding/json replaces it),
+// so such texts travel as {"b64": …} and every process sees the same bytes.
+type Txt string
+
+func (t Txt) MarshalJSON() ([]byte, error) {
+	if utf8.ValidString(string(t)) {
+		return json.Marshal(string(t))
+	}
+	return json.Marshal(map[string]string{"b64": base64.StdEncoding.EncodeToString([]byte(t))})
+}
+
+func (t *Txt) UnmarshalJSON(b []byte) error {
+	var s string
+	if json.Unmarshal(b, &s) == nil {
+		*t = Txt(s)
+		return nil
+	}
+	var m map[string]string
+	if err := json.Unmarshal(b, &m); err != nil {
+		return err
+	}
+	d, err := base64.StdEncoding.DecodeString(m["b64"])
+	*t = Txt(d)
+	return err
+}
 
 // A Project is one self-contained input of the library: a root text plus the
 // named types and enum rules registered with it (DESIGN.md §2.3).
@@ -28,14 +57,60 @@ type RuleSpec struct {
 	Text string `json:"text"`
 }
 
+type projectJ struct {
+	Kind  string     `json:"kind"`
+	Name  string     `json:"name"`
+	Text  Txt        `json:"text"`
+	Types []TypeSpec `json:"types,omitempty"`
+	Rules []RuleSpec `json:"rules,omitempty"`
+	Torn  string     `json:"torn,omitempty"`
+}
+
+func (p Project) MarshalJSON() ([]byte, error) {
+	return json.Marshal(projectJ{p.Kind, p.Name, Txt(p.Text), p.Types, p.Rules, p.Torn})
+}
+func (p *Project) UnmarshalJSON(b []byte) error {
+	var j projectJ
+	err := json.Unmarshal(b, &j)
+	*p = Project{j.Kind, j.Name, string(j.Text), j.Types, j.Rules, j.Torn}
+	return err
+}
+
+type typeJ struct {
+	Name string `json:"name"`
+	Kind string `json:"kind"`
+	Text Txt    `json:"text"`
+}
+
+func (t TypeSpec) MarshalJSON() ([]byte, error) { return json.Marshal(typeJ{t.Name, t.Kind, Txt(t.Text)}) }
+func (t *TypeSpec) UnmarshalJSON(b []byte) error {
+	var j typeJ
+	err := json.Unmarshal(b, &j)
+	*t = TypeSpec{j.Name, j.Kind, string(j.Text)}
+	return err
+}
+
+type ruleJ struct {
+	Name string `json:"name"`
+	Text Txt    `json:"text"`
+}
+
+func (t RuleSpec) MarshalJSON() ([]byte, error) { return json.Marshal(ruleJ{t.Name, Txt(t.Text)}) }
+func (t *RuleSpec) UnmarshalJSON(b []byte) error {
+	var j ruleJ
+	err := json.Unmarshal(b, &j)
+	*t = RuleSpec{j.Name, string(j.Text)}
+	return err
+}
+
 func (p *Project) Hash() string {
 	b, _ := json.Marshal(struct {
 		K string
 		N string
-		T string
+		T Txt
 		Y []TypeSpec
 		R []RuleSpec
-	}{p.Kind, p.Name, p.Text, p.Types, p.Rules})
+	}{p.Kind, p.Name, Txt(p.Text), p.Types, p.Rules})
 	h := sha1.Sum(b)
 	return hex.EncodeToString(h[:])
 }
